@@ -5,5 +5,6 @@ set -e
 cd "$(dirname "$0")"
 mkdir -p work evidence replays
 ( cd lean && lake build )
+sed "s#@REPO@#/repo#" harness/Cargo.toml.in > harness/Cargo.toml
 cp /repo/Cargo.lock harness/Cargo.lock
 ( cd harness && CARGO_NET_OFFLINE=true cargo build --offline )
